@@ -961,10 +961,27 @@ shift(bitint383_t cand[static 3U], const unsigned int y, echs_shift_t sh)
 }
 
 
+static echs_instant_t
+until_in(rrulsp_t rr, echs_scale_t sca)
+{
+/* UNTIL in terms of calendar SCA, the fillers compare their candidates
+ * before these are converted back */
+	echs_instant_t u;
+
+	if (LIKELY(sca == SCALE_GREGORIAN || echs_max_instant_p(rr->until))) {
+		return rr->until;
+	} else if (echs_nul_instant_p(u = echs_instant_rescale(rr->until, sca))) {
+		/* outside of what SCA covers */
+		return rr->until;
+	}
+	return echs_instant_detach_scale(u);
+}
+
 size_t
 rrul_fill_yly(echs_instant_t *restrict tgt, size_t nti, rrulsp_t rr)
 {
 	const echs_scale_t srcsca = rr->scale;
+	const echs_instant_t until = until_in(rr, srcsca);
 	const echs_instant_t protr = echs_instant_rescale(*tgt, srcsca);
 	const echs_instant_t proto = echs_instant_detach_scale(protr);
 	unsigned int y = proto.y;
@@ -1124,7 +1141,7 @@ rrul_fill_yly(echs_instant_t *restrict tgt, size_t nti, rrulsp_t rr)
 						.ms = proto.ms,
 					};
 
-					if (UNLIKELY(echs_instant_lt_p(rr->until, x))) {
+					if (UNLIKELY(echs_instant_lt_p(until, x))) {
 						goto fin;
 					}
 					if (UNLIKELY(echs_instant_lt_p(x, proto))) {
@@ -1148,6 +1165,7 @@ size_t
 rrul_fill_mly(echs_instant_t *restrict tgt, size_t nti, rrulsp_t rr)
 {
 	const echs_scale_t srcsca = rr->scale;
+	const echs_instant_t until = until_in(rr, srcsca);
 	const echs_instant_t protr = echs_instant_rescale(*tgt, srcsca);
 	const echs_instant_t proto = echs_instant_detach_scale(protr);
 	unsigned int y = proto.y;
@@ -1330,7 +1348,7 @@ rrul_fill_mly(echs_instant_t *restrict tgt, size_t nti, rrulsp_t rr)
 						.ms = proto.ms,
 					};
 
-					if (UNLIKELY(echs_instant_lt_p(rr->until, x))) {
+					if (UNLIKELY(echs_instant_lt_p(until, x))) {
 						goto fin;
 					}
 					if (UNLIKELY(echs_instant_lt_p(x, proto))) {
@@ -1354,6 +1372,7 @@ size_t
 rrul_fill_wly(echs_instant_t *restrict tgt, size_t nti, rrulsp_t rr)
 {
 	const echs_scale_t srcsca = rr->scale;
+	const echs_instant_t until = until_in(rr, srcsca);
 	const echs_instant_t protr = echs_instant_rescale(*tgt, srcsca);
 	const echs_instant_t proto = echs_instant_detach_scale(protr);
 	unsigned int y = proto.y;
@@ -1501,7 +1520,7 @@ rrul_fill_wly(echs_instant_t *restrict tgt, size_t nti, rrulsp_t rr)
 				if (UNLIKELY(echs_instant_lt_p(x, proto))) {
 					continue;
 				}
-				if (UNLIKELY(echs_instant_lt_p(rr->until, x))) {
+				if (UNLIKELY(echs_instant_lt_p(until, x))) {
 					goto fin;
 				} else if (!(m_mask & (1U << this_m))) {
 					/* skip this day, the next day of the week
@@ -1524,6 +1543,7 @@ size_t
 rrul_fill_dly(echs_instant_t *restrict tgt, size_t nti, rrulsp_t rr)
 {
 	const echs_scale_t srcsca = rr->scale;
+	const echs_instant_t until = until_in(rr, srcsca);
 	const echs_instant_t protr = echs_instant_rescale(*tgt, srcsca);
 	const echs_instant_t proto = echs_instant_detach_scale(protr);
 	unsigned int y = proto.y;
@@ -1662,7 +1682,7 @@ rrul_fill_dly(echs_instant_t *restrict tgt, size_t nti, rrulsp_t rr)
 			};
 			if (UNLIKELY(echs_instant_lt_p(x, proto))) {
 				continue;
-			} else if (UNLIKELY(echs_instant_lt_p(rr->until, x))) {
+			} else if (UNLIKELY(echs_instant_lt_p(until, x))) {
 				goto fin;
 			}
 			/* attach scale and convert back to greg */
